@@ -329,7 +329,7 @@ func (c *Ctx) confirmTSHistory(prog *tsmini.Program, s *corpus.Spec, v gosym.Vio
 	xt, xv := get("x", nx)
 	dir := c.Scratch()
 	run := func(t, vv []int64) string {
-		return fmt.Sprintf(`(function(){ verifTok=%s; verifVal=%s; verifLog=[]; verifRequests=0; let logged=false; const ce=console.error; console.error=function(){logged=true}; let o={}; try { const r=Parser(""); o.k=(r===null||r===undefined)?(logged?1:4):0; if(o.k===0){o.v=JSON.stringify(r)} } catch(e){ o.k=3 } console.error=ce; o.log=verifLog; o.req=verifRequests; return JSON.stringify(o) })()`, jsArr(t), jsArr(vv))
+		return fmt.Sprintf(`(function(){ verifTok=%s; verifVal=%s; verifLog=[]; verifRequests=0; let logged=false; const ce=console.error; console.error=function(){logged=true}; let o={}; try { const r=Parser(verifInputText()); o.k=(r===null||r===undefined)?(logged?1:4):0; if(o.k===0){o.v=JSON.stringify(r)} } catch(e){ o.k=3 } console.error=ce; o.log=verifLog; o.req=verifRequests; return JSON.stringify(o) })()`, jsArr(t), jsArr(vv))
 	}
 	js := prog.StripTypes() + "\nconst A = " + run(yt, yv) + ";\n"
 	js2 := prog.StripTypes() + "\n" + run(xt, xv) + ";\ninitialize();\nconst B = " + run(yt, yv) + ";\n"
